@@ -4,11 +4,20 @@ from verif.vsched import ctl
 PROPERTY = 'C02'
 LEVEL = 'model_checking'
 EXHAUSTIVE = True
-RULE = ('Same executions as C01 (stateless exploration of the real runtime classes under a controlled scheduler; every scenario on '
-        'the canonical schedule, all <=1-deviation schedules for the core scenarios). Oracle at the end of every execution: the '
-        'stage loop terminated within the virtual horizon, every component of the stages that ran is in exactly one final state '
-        'recorded by the controller, and the final-state map / run() verdict / stage state equal the reference model written from '
-        'the documented rules (verif/vsched/ctl.py reference_outcome). distinct = distinct (scenario, choice prefix).')
+RULE = ('Stateless exploration of the REAL Controller/ComponentState/Engine/RepeatingEngine/monitor classes under a controlled '
+        'scheduler. Scenario = workflow (chain2/3, pair, fan-in, diamond, cross-stage x2, restart from stage 1, same-stage observers, '
+        'observer with two subjects in both listing orders, cross-stage observer, mixed observer, replicated+aggregating shapes, '
+        'late sibling, a real two-stage DoWhile) x exit script per component (success / shutdown-listed / unrecoverable / '
+        'restartable x1 x4 / failed submission x1 x6 / task-reported SubmissionFailed x1 x6; every single assignment and every pair '
+        'over {shutdown-listed, unrecoverable, restartable}) + duration scenarios (long-running siblings, exits inside the 25 s '
+        'stability wait, slowly draining stages). Every scenario runs on the canonical fair schedule; ALL schedules with <=1 '
+        'deviation (a younger activity first, a task exiting early, a timer firing early) for chain2, pair, observer and one '
+        'seed-rotated scenario (thorough: every single-fault scenario); all 1-deviation schedules at boundary actions for the '
+        'two-fault race scenarios; line-level preemption points + stall deviation inside Controller.run / finishedCheck / '
+        'ComponentState.finish for the pair workflow (thorough: chain2 too); thorough: deviation bound 2 at boundary actions for chain2. '
+        'Oracle at the end of every execution: the stage loop terminated within the virtual horizon, every component of the stages '
+        'that ran is in a final state, and the final-state map / run() verdict / StageState.state agree with the reference model '
+        'written from the documented rules (verif/vsched/ctl.py reference_outcome). distinct = distinct (scenario, choice prefix).')
 ASSUMPTIONS = [
     'same controlled-runtime assumptions as C01',
     'a same-stage repeating observer whose subject is shut down or failed may end finished or shut-down (statement leaves it open)',
